@@ -8,6 +8,7 @@ import Driver.C09
 import Driver.C11
 import Driver.C12
 import Driver.C13
+import Driver.C16
 import Driver.C17
 open Lean Drv
 
@@ -23,6 +24,7 @@ def dispatch (j : Json) : Except String Json := do
   | "C11" => Drv.C11.handle j
   | "C12" => Drv.C12.handle j
   | "C13" => Drv.C13.handle j
+  | "C16" => Drv.C16.handle j
   | "C17" => Drv.C17.handle j
   | _ => throw s!"bad-property {p}"
 
